@@ -416,8 +416,14 @@ variable {α : Type} [Add α] [Mul α] [Zero α]
 /-- `epgc.dot(bvmat[cconfig,:])` for one trait -/
 def pmean (epgc : List α) (bv : List α) : α := (List.zipWith (· * ·) epgc bv).sum
 
-/-- `uc[i,:] = pmean + selection_intensity * numpy.sqrt(pvar)`; the square root is a parameter -/
-def ucVal (sqrt : α → α) (pm inten pvar : α) : α := pm + inten * sqrt pvar
+/-- before fix D37: `uc[i,:] = pmean + selection_intensity * numpy.sqrt(pvar)`; the square root is a parameter -/
+def ucValPrerepair (sqrt : α → α) (pm inten pvar : α) : α := pm + inten * sqrt pvar
+
+/-- `numpy.maximum(x, 0.0)` -/
+def clip0 [LT α] [DecidableLT α] (x : α) : α := if x < 0 then 0 else x
+
+/-- since fix D37: `uc[i,:] = pmean + selection_intensity * numpy.sqrt(numpy.maximum(pvar, 0.0))` -/
+def ucVal [LT α] [DecidableLT α] (sqrt : α → α) (pm inten pvar : α) : α := pm + inten * sqrt (clip0 pvar)
 
 /-- breeding value `beta + Σ_i u_i (g0_i + g1_i)` of a genotype with phases `h0`, `h1` -/
 def bvOf (p : Nat) (beta : α) (u h0 h1 : Nat → α) : α := beta + sumRange 0 p (fun i => u i * (h0 i + h1 i))
@@ -444,7 +450,7 @@ def calcXmap (ntaxa nparent : Nat) (unique : Bool) : List (List Nat) :=
   if unique then triudix ntaxa nparent else triuix ntaxa nparent
 
 section ucmat
-variable {α : Type} [Add α] [Mul α] [Zero α]
+variable {α : Type} [Add α] [Mul α] [Zero α] [LT α] [DecidableLT α]
 
 /-- `_calc_uc`: `for i, cconfig in enumerate(xmap): uc[i,:] = epgc.dot(bvmat[cconfig,:]) + intensity * sqrt(vmat[tuple(cconfig)])`
     — one row per configuration of the cross map (ANY list of index tuples), one column per trait.
